@@ -6,6 +6,7 @@
 # quick checks at the patched worktree (VERIF_REPO) and records which of them report a violation.
 # Keeps the change under /verif/seeded/<name>/ and removes the worktree with its build output.
 set -u
+VD=$(cd "$(dirname "$0")/.." && pwd); export VERIF_DIR=$VD
 src=$1; name=$2; shift 2
 S=${VERIF_SCRATCH:-/var/tmp/verif-scratch}
 wt=$S/wt-$name; out=$S/out-$name; bld=$S/build-$name
@@ -31,7 +32,7 @@ detected=""
 results=""
 if [ $ok -eq 1 ]; then
   for p in "$@"; do
-    VERIF_REPO=$wt VERIF_OUT=$out VERIF_BUILD=$bld /verif/check $p --tier ${SEEDED_TIER:-quick} > $S/log-$name-$p.txt 2>&1
+    VERIF_REPO=$wt VERIF_OUT=$out VERIF_BUILD=$bld $VD/check $p --tier ${SEEDED_TIER:-quick} > $S/log-$name-$p.txt 2>&1
     rc=$?
     sigs=$(grep "signature:" $S/log-$name-$p.txt | sed 's/^ *signature: //' | cut -d' ' -f1 | head -4 | tr '\n' ' ')
     echo "  $name $p exit=$rc $(grep -c '^VIOLATION' $S/log-$name-$p.txt) violations; $sigs"
